@@ -626,26 +626,34 @@ func resetBetween(t *Terminal, obj Val, lo, hi int) bool {
 // zeroStateAt: is *obj in its zero state at event hi? Either obj is an allocation of this path that nothing has written
 // since (lo = the previous decode, -1 for none), or the last write to it before hi is a whole-object zero store.
 func zeroStateAt(t *Terminal, obj Val, lo, hi int) (bool, string) {
-	a, isAlloc := obj.(*AllocV)
+	root, isAlloc := rootOf(obj).(*AllocV)
 	if !isAlloc {
 		return false, "is not an object created by this operation"
 	}
 	zero := true
 	why := ""
-	base := lvalKey(a)
+	base := lvalKey(obj)
 	for _, e := range t.St.events {
-		if e.Kind != EvStore || e.Seq >= hi {
+		if e.Kind != EvStore || e.Seq >= hi || rootOf(e.Addr).Key() != root.Key() {
 			continue
 		}
+		ek := lvalKey(e.Addr)
 		switch {
-		case e.Addr.Key() == a.Key():
+		case e.Addr.Key() == obj.Key():
 			zero = isZeroVal(e.Val)
 			if !zero {
 				why = "is assigned " + ap(e.Val) + " before the decode"
 			}
-		case rootOf(e.Addr).Key() == a.Key() && strings.HasPrefix(lvalKey(e.Addr), base):
+		case strings.HasPrefix(ek, base+".") || strings.HasPrefix(ek, base+"["):
+			// a part of the object
 			zero = false
 			why = "has " + apLval(e.Addr) + " written before the decode"
+		case strings.HasPrefix(base, ek+".") || strings.HasPrefix(base, ek+"["):
+			// an aggregate containing the object is assigned as a whole
+			zero = isZeroVal(e.Val)
+			if !zero {
+				why = "lies inside " + apLval(e.Addr) + ", which is assigned " + ap(e.Val) + " before the decode"
+			}
 		}
 	}
 	return zero, why
